@@ -297,8 +297,28 @@ func Run(ctx *common.Ctx) {
 			}
 		}
 	}
+	// incf / decf (addNumbers with the delta as second operand): the place holds the exact sum, the delta
+	// variable keeps its value and its identity (a second incf must not double it). Integers only, so the
+	// printed form is the oracle.
+	nplace := 300
+	if ctx.Thorough() {
+		nplace = 3000
+	}
+	for i := 0; i < nplace; i++ {
+		x, d := randInt(), randInt()
+		xs, ds := show(new(big.Rat).SetInt(x)), show(new(big.Rat).SetInt(d))
+		prog := fmt.Sprintf("(let ((x %s) (d %s)) (incf x d) (incf x d) (decf x d) (list x d))", xs, ds)
+		want := fmt.Sprintf("(%s %s)", new(big.Int).Add(x, d).String(), d.String())
+		out := common.EvalTimeout(slip.NewScope(), prog, 5*time.Second)
+		got := strings.Join(strings.Fields(common.ShowOutcome(out)), " ") // the printer breaks long lists
+		ctx.Meta.Evaluations++
+		ctx.Hist("op:incf/decf")
+		if got != want {
+			ctx.Violate("incf / decf: the place does not hold the exact sum, or the delta operand was altered", prog, got, want)
+		}
+	}
 	ctx.Meta.DistinctNontrivial = len(distinct)
-	ctx.Meta.Rule = "operator from {+ - * / floor ceiling truncate round mod rem abs 1+ 1- gcd lcm < <= > >= = logand logior logxor lognot} x 1..3 operands (0..4 for logand logior logxor, 60% of them drawn from a mix of small fixnums of both signs, random 64-bit fixnums, the grid, +-2^k+-j for k in 64..133, and the general integers, each position independently, so negative fixnums occur before and after the first bignum) drawn from the boundary grid {0,+-1,+-2,+-3,+-7,+-10,+-2^e,+-(2^e-1),+-(2^e+1) for e in 31,32,62,63,64} (40%), small integers, random 64-bit and random <=200-bit integers, ratios of those (30% for operators that take them), bignum objects holding small values, and in 55% of the cases operands derived from the first one (equal, negated, +-1, small multiples and exact quotients, multiple plus small remainder, exact half-way points, the integers around a ratio, +1/2); distinct = distinct (operator, operand representations) tuples, all non-trivial"
+	ctx.Meta.Rule = "operator from {+ - * / floor ceiling truncate round mod rem abs 1+ 1- gcd lcm < <= > >= = logand logior logxor lognot} x 1..3 operands (0..4 for logand logior logxor, 60% of them drawn from a mix of small fixnums of both signs, random 64-bit fixnums, the grid, +-2^k+-j for k in 64..133, and the general integers, each position independently, so negative fixnums occur before and after the first bignum) plus 300 (thorough 3000) incf/incf/decf sequences on integer places and deltas checked against math/big directly; operands drawn from the boundary grid {0,+-1,+-2,+-3,+-7,+-10,+-2^e,+-(2^e-1),+-(2^e+1) for e in 31,32,62,63,64} (40%), small integers, random 64-bit and random <=200-bit integers, ratios of those (30% for operators that take them), bignum objects holding small values, and in 55% of the cases operands derived from the first one (equal, negated, +-1, small multiples and exact quotients, multiple plus small remainder, exact half-way points, the integers around a ratio, +1/2); distinct = distinct (operator, operand representations) tuples, all non-trivial"
 	header := "From C05 Require Import Model Spec Corr.\nOpen Scope Z_scope.\n"
 	footer := "Definition res := Eval vm_compute in check_all cases.\nPrint res.\nDefinition gcount := Eval vm_compute in guard_count cases.\nPrint gcount.\nDefinition vcount := Eval vm_compute in value_guard_count cases.\nPrint vcount.\n"
 	ctx.WriteShards("cases", header, "case", footer, terms, descs, 16)
